@@ -200,3 +200,13 @@ Theorem C17_doc_vector :
   encode doc_body 1 doc_hm 0 1 = Ok [241;242;243;244;245;246;247;248].
 Proof. exact doc_vector. Qed.
 Print Assumptions C17_doc_vector.
+
+(* the SOURCE of validateLowEntropyCodecParams as it is now (gen/Translated.v; math/bits.OnesCount32 by specification):
+   it accepts exactly the triples validate_params accepts - a mode of the table, a half mask with exactly the mode's number
+   of one bits, a valid rotation - and returns the mode's parameters; C17_rejects / C17_accepts_iff_canonical are stated
+   over validate_params *)
+Theorem C17_source_codec_params : forall (mode : Z) (hm : N) (rot : Z), (- 2 ^ 31 <= rot < 2 ^ 31)%Z ->
+  xl_protocol_validateLowEntropyCodecParams mode (Z.of_N hm) rot =
+  match validate_params mode hm rot with Ok (c, w) => ((c, w), false) | Err _ => ((0, 0), true) end%Z.
+Proof. exact xl_validateLowEntropyCodecParams_eq_model. Qed.
+Print Assumptions C17_source_codec_params.
